@@ -63,7 +63,7 @@ class Filesize:
 
             if compressed is not None:
                 width_value = max(width_value, compressed)
-            width = math.ceil(math.log2(width_value + 1) / 8)
+            width = (width_value.bit_length() + 7) // 8    # smallest number of bytes holding the value (integer arithmetic: exact for any size)
 
         self.uncompressed = uncompressed
         self.compressed = compressed
